@@ -1,10 +1,154 @@
-import JP.Driver
-import JP.Impl.Den
+import JP.Lemmas.DecodePatch
 
-/-! # Property C11 — theorems (see DESIGN.md §6) -/
+/-!
+# C11: `DecodePatch` accepts exactly well-formed RFC 6902 patch documents
+
+Model: `Impl.decodePatch` (JP/Impl/Apply.lean).  Specification: `Spec.wellFormedPatch`
+(JP/Spec/PatchDoc.lean), stated on the value the text denotes.
+-/
 
 namespace JP
 namespace C11
+open DecodePatchLemmas
+
+/-- the decoder's map lookup (last duplicate wins, names compared after decoding) is the
+specification's lookup on the denoted value -/
+theorem lookupLastC_valueOf (k : Bytes) (ms : List (Bytes × Cst)) :
+    (Impl.lookupLastC k ms).map Cst.valueOf = Spec.lookupLast k (Cst.valueOfM ms) :=
+  DecodePatchLemmas.lookupLastC_valueOf k ms
+
+/-- acceptance on syntax trees: the decoder accepts exactly the well-formed patch documents -/
+theorem decodeOps_iff (xs : List Cst) :
+    (Impl.decodeOps xs).isSome = Spec.wellFormedPatch (.arr (Cst.valueOfL xs)) := by
+  simp only [Spec.wellFormedPatch]
+  exact decodeOps_isSome xs
+
+/-- at the level of texts, given that the scanner and the reference parser agree on this
+text (proved separately; here the hypothesis `hv`) -/
+theorem decodePatch_iff (bs : Bytes) (hv : Scanner.valid bs = (parseCst bs).isSome) :
+    (∃ ops, Impl.decodePatch bs = .ok ops) ↔
+      (∃ v, parseValueOf bs = some v ∧ Spec.wellFormedPatch v = true) := by
+  unfold Impl.decodePatch parseValueOf
+  rw [hv]
+  cases hp : parseCst bs with
+  | none => simp
+  | some c =>
+    simp only [Option.isSome_some, Bool.not_true, Bool.false_eq_true, if_false, Option.map_some,
+      Option.some.injEq, exists_eq_left']
+    cases c with
+    | arr xs =>
+      simp only [Cst.valueOf]
+      rw [← decodeOps_iff]
+      cases Impl.decodeOps xs <;> simp
+    | lit s =>
+      constructor
+      · rintro ⟨ops, h⟩; simp only [] at h; split at h <;> cases h
+      · intro h
+        simp only [Cst.valueOf] at h
+        cases hl : Cst.litValue s with
+        | arr vs => exact absurd hl (litValue_ne_arr s vs)
+        | _ => simp [hl, Spec.wellFormedPatch] at h
+    | str b =>
+      constructor
+      · rintro ⟨ops, h⟩; simp only [] at h; split at h <;> cases h
+      · intro h; simp [Cst.valueOf, Spec.wellFormedPatch] at h
+    | obj ms =>
+      constructor
+      · rintro ⟨ops, h⟩; simp only [] at h; split at h <;> cases h
+      · intro h; simp [Cst.valueOf, Spec.wellFormedPatch] at h
+
+/-- rejection returns no patch and the decoder never panics: the result is an error or a patch -/
+theorem decodePatch_total (bs : Bytes) : Impl.decodePatch bs ≠ .panic := by
+  unfold Impl.decodePatch
+  split
+  · simp
+  · split
+    · simp
+    · split <;> simp
+    · split <;> simp
+
+theorem decodePatch_err_or_ok (bs : Bytes) :
+    (∃ e, Impl.decodePatch bs = .err e) ∨ (∃ ops, Impl.decodePatch bs = .ok ops) := by
+  have := decodePatch_total bs
+  cases h : Impl.decodePatch bs with
+  | ok ops => exact .inr ⟨ops, rfl⟩
+  | err e => exact .inl ⟨e, rfl⟩
+  | panic => exact absurd h this
+
+/-- accessors: every accepted operation reports the members the specification's view
+reports, in order -/
+theorem accessors (xs : List Cst) (ops : List Impl.Op) (h : Impl.decodeOps xs = some ops) :
+    ops.map (fun op => (op.kind, op.path, op.frm, op.value.map Cst.valueOf)) =
+      (Cst.valueOfL xs).map (fun v =>
+        match Spec.viewOp v with
+        | some w => (w.kind, w.path, w.frm, w.value)
+        | none => default) :=
+  decodeOps_view xs ops h
+
+/-- the same at the level of texts -/
+theorem accessors_text (bs : Bytes) (ops : List Impl.Op) (h : Impl.decodePatch bs = .ok ops) :
+    ∃ vs, parseValueOf bs = some (.arr vs) ∧
+      ops.map (fun op => (op.kind, op.path, op.frm, op.value.map Cst.valueOf)) =
+        vs.map (fun v =>
+          match Spec.viewOp v with
+          | some w => (w.kind, w.path, w.frm, w.value)
+          | none => default) := by
+  unfold Impl.decodePatch at h
+  split at h
+  · simp at h
+  · split at h
+    · simp at h
+    · rename_i xs hp
+      cases hd : Impl.decodeOps xs with
+      | none => simp [hd] at h
+      | some ops' =>
+        simp only [hd, Impl.Outcome.ok.injEq] at h
+        subst h
+        exact ⟨Cst.valueOfL xs, by simp [parseValueOf, hp, Cst.valueOf], accessors xs ops' hd⟩
+    · split at h <;> simp at h
+
+/-! ### the hypotheses are satisfiable -/
+
+def sampleText : Bytes :=
+  ascii "[{\"op\":\"add\",\"op\":\"copy\",\"path\":\"/a\",\"from\":\"/b\",\"value\":null},{\"path\":\"\",\"op\":\"remove\",\"from\":null}]"
+
+def sampleCst : List Cst :=
+  [.obj [(ascii "op", .str (ascii "add")), (ascii "op", .str (ascii "copy")), (ascii "path", .str (ascii "/a")),
+         (ascii "from", .str (ascii "/b")), (ascii "value", .lit (ascii "null"))],
+   .obj [(ascii "path", .str []), (ascii "op", .str (ascii "remove")), (ascii "from", .lit (ascii "null"))]]
+
+def sampleOps : List Impl.Op :=
+  [{ kind := ascii "copy", path := ascii "/a", frm := some (ascii "/b"), value := some Impl.litNull },
+   { kind := ascii "remove", path := [], frm := none, value := none }]
+
+def showOp (op : Impl.Op) : List Bytes :=
+  [op.kind, op.path, op.frm.getD (ascii "<none>"), (op.value.map Cst.print).getD (ascii "<none>")]
+
+example : (parseCst sampleText).map Cst.print = some (Cst.print (.arr sampleCst)) := by decide +kernel
+
+/-- `decodeOps_iff`, both sides true on a non-trivial patch (duplicate `op`, `null` members) -/
+example : (Impl.decodeOps sampleCst).isSome = true := by decide +kernel
+
+/-- … and both sides false (`add` without `value`) -/
+example : (Impl.decodeOps [.obj [(ascii "op", .str (ascii "add")), (ascii "path", .str [])]]).isSome = false := by
+  decide +kernel
+
+/-- the hypothesis of `decodePatch_iff` holds for the sample text -/
+example : Scanner.valid sampleText = (parseCst sampleText).isSome := by decide +kernel
+
+example : (match Impl.decodePatch sampleText with | .ok ops => some (ops.map showOp) | _ => none)
+    = some (sampleOps.map showOp) := by decide +kernel
+
+example : (match Impl.decodePatch (ascii "[{\"op\":\"add\",\"path\":\"/a\"}]") with
+    | .err e => some e | _ => none) = some .other := by decide +kernel
+
+/-- the hypothesis of `accessors` (shown through the printed members) -/
+example : (Impl.decodeOps sampleCst).map (·.map showOp) = some (sampleOps.map showOp) := by decide +kernel
 
 end C11
 end JP
+
+-- #print axioms JP.C11.decodeOps_iff
+-- #print axioms JP.C11.decodePatch_iff
+-- #print axioms JP.C11.decodePatch_total
+-- #print axioms JP.C11.accessors
